@@ -182,6 +182,9 @@ func boundsRun(c *Ctx, entries []*ssa.Function, hooks *bounds.Hooks) int {
 		if o.Text != "" {
 			text = o.Text + ": " + text
 		}
+		if o.NoSrc {
+			text = o.Text
+		}
 		fname := core.FuncName(o.Fn)
 		if o.Kind == "WRAP" && !c.wrapScope[fname] {
 			if os.Getenv("RTPCHECK_WRAPSHIFTS") == "" {
